@@ -300,6 +300,52 @@ func runC17(c *kit.Ctx) {
 		}
 	}
 
+	// the connection-level-error cap of SendBatch looks at this round's retry list:
+	// nothing may empty or replace that list between the round's wait and the test
+	if sbFn := p.Func("", "client", "SendBatch"); sbFn != nil {
+		for _, h := range kit.Calls(sbFn, kit.M("", "", "hasServerError")) {
+			l, ok := kit.Strip(h.Common().Args[0]).(*ssa.UnOp)
+			if !ok {
+				c.Unk(sbFn, "retry-list-fresh", h.Pos(), "hasServerError is not applied to the retry list variable")
+				continue
+			}
+			// the round's wait: the last call of a function literal (or waitForCompletion) that precedes h
+			var wait ssa.Instruction
+			kit.Instrs(sbFn, func(in ssa.Instruction) {
+				if call, ok := in.(*ssa.Call); ok && kit.Dominates(call, h.(ssa.Instruction)) {
+					if cal := kit.StaticCallee(call); cal != nil && (cal.Parent() == sbFn || cal.Name() == "waitForCompletion") {
+						wait = call
+					}
+				}
+			})
+			bad := false
+			if wait != nil {
+				kit.Instrs(sbFn, func(in ssa.Instruction) {
+					st, ok := in.(*ssa.Store)
+					if !ok || st.Addr != l.X {
+						return
+					}
+					e := kit.PathFrom(wait, kit.PathQuery{
+						Target: func(x ssa.Instruction) bool { return x == ssa.Instruction(st) },
+						Stop:   func(x ssa.Instruction) bool { return x == h.(ssa.Instruction) },
+					})
+					if e == nil {
+						return
+					}
+					// ... and from there to the test without starting a new round
+					e2 := kit.PathFrom(st, kit.PathQuery{
+						Target: func(x ssa.Instruction) bool { return x == h.(ssa.Instruction) },
+						Stop:   func(x ssa.Instruction) bool { return x == wait },
+					})
+					if e2 != nil {
+						bad = true
+					}
+				})
+			}
+			c.Check(wait != nil && !bad, sbFn, "retry-list-fresh", h.Pos(), "the ServerError cap examines the retry list exactly as this round's wait left it", "the retry list is reset or replaced between the round's wait and the ServerError test: the test sees an empty list, the bounded-immediate-retry counter never advances and batches failing with connection-level errors are resent without any wait")
+		}
+	}
+
 	// ---- R4 threading ---------------------------------------------------------
 	c.StartRule("R4", "the loop threads the returned back-off and leaves on its error", 8)
 	for _, fn := range p.Funcs {
